@@ -258,7 +258,7 @@ func (sw *SnapshotWriter) saveHeader() error {
 	}
 	sh.HeaderChecksum = headerHash.Sum(nil)
 	data = pb.MustMarshal(&sh)
-	if uint64(len(data)) > HeaderSize-8 {
+	if uint64(len(data))+4 > HeaderSize-8 {
 		panic("snapshot header is too large")
 	}
 	lenbuf := make([]byte, 8)
@@ -267,6 +267,14 @@ func (sw *SnapshotWriter) saveHeader() error {
 		return err
 	}
 	if _, err := sw.file.WriteAt(data, 8); err != nil {
+		return err
+	}
+	// the reader validates the crc32 that follows the header record, an all
+	// zero value is accepted for files written by earlier versions. write it,
+	// as the streaming writer does, so a corrupted header is detected.
+	h := newCRC32Hash()
+	fileutil.MustWrite(h, data)
+	if _, err := sw.file.WriteAt(h.Sum(nil), int64(8+len(data))); err != nil {
 		return err
 	}
 	return nil
